@@ -60,6 +60,8 @@ def explore(tier, seed):
     clen = 2000 if tier == "quick" else 10000
     for s in CHAIN_STARTS:
         chunks.append(("chain", s, clen))
+    for s in ("0042", "0998", "777", "0001", "1001", "7", "09998"):
+        chunks.append(("update-chain", s, 6))
     chunks.sort(key=lambda c: (c[0] != "edges", 0))  # stable: edges first
     return pool.run_chunks(run_chunk, chunks)
 
@@ -161,6 +163,8 @@ def run_chunk(chunk):
             st.states_by_construction += 1
         if lo == 0:
             st.sample({"pattern": "BUILD", "edges": f"{lo:0{n}d}..{hi - 1:0{n}d}", "last": [old, new]})
+    elif chunk[0] == "update-chain":
+        update_chain(st, chunk[1], chunk[2])
     else:
         _k, start, clen = chunk
         cur, generated, lens = start, False, {len(start)}
@@ -180,8 +184,54 @@ def run_chunk(chunk):
     return st
 
 
+def update_chain(st, start, n):
+    """Successive `update` runs in a project under (fake) git whose only tag is the START version - bumps that are not
+    tagged (tag = false) leave the tag list behind the config; BUILD must keep growing from the config value."""
+    import os
+
+    from .. import fakevcs, pool
+
+    d = pool.fresh_dir("c17u")
+    os.chdir(d)
+    for pattern, prefix in (("vYYYY.BUILD", "v2020."), ("YYYY.BLD", "2020.")):
+        if pattern == "YYYY.BLD" and (start.startswith("0") and len(start) > 1):
+            continue
+        cur = prefix + start
+        world.clear_dir(".")
+        cfg = f'[bumpver]\ncurrent_version = "{cur}"\nversion_pattern = "{pattern}"\ncommit = false\n\n[bumpver.file_patterns]\n"a.txt" = ["ver={{version}};"]\n'
+        world.write_tree({"bumpver.toml": cfg.encode(), "a.txt": f"ver={cur};\n".encode()})
+        os.mkdir(".git")
+        for i in range(n):
+            fake = fakevcs.install(fakevcs.FakeVCS("git", tags_all=[prefix + start], tags_merged=[prefix + start], status=[]))
+            try:
+                o = world.cli("update", "--no-fetch", "--date", "2020-06-15")
+            finally:
+                fakevcs.uninstall()
+            st.evaluations += 1
+            st.transitions += 1
+            st.validated += 1
+            case = ["update-chain", pattern, start, i, cur]
+            st.observe((pattern, start, i, o.exit, o.new_version))
+            if o.exit != 0 or o.new_version is None:
+                st.outcomes["violation"] += 1
+                st.violation("C17:update-chain-stuck-behind-a-stale-tag:" + _cls(start), case, {"exit": o.exit, "log": o.log[-3:], "old_version_line": o.old_version})
+                break
+            old_b, new_b = cur[len(prefix):], o.new_version[len(prefix):]
+            if not new_b.isdigit() or int(new_b) <= int(old_b):
+                st.outcomes["violation"] += 1
+                st.violation("C17:update-chain-build-not-increasing:" + _cls(start), case, {"announced": o.new_version, "previous": cur, "old_version_line": o.old_version})
+                break
+            st.state("update-chain", pattern, o.new_version)
+            st.outcomes["update-chain:step"] += 1
+            cur = o.new_version
+    os.chdir("/")
+
+
 def replay(case, st):
     world.set_today(TODAY)
+    if case[0] == "update-chain":
+        update_chain(st, case[2], case[3] + 2)
+        return
     if case[0] == "chain":
         check_edge(st, "BUILD", "", case[3], case[2] > 0, case)
     else:
